@@ -140,11 +140,24 @@ class Tr:
                 return "(zlast %s)" % v, "Z"
             if tv == "L" and isinstance(s, ast.Constant) and s.value == 0:
                 return "(zfirst %s)" % v, "Z"
-            if tv == "L" and isinstance(s, ast.Compare) and len(s.ops) == 1 \
-                    and type(s.ops[0]) in CMP and ast.unparse(s.left) == ast.unparse(e.value):
-                k, tk = self.expr(s.comparators[0], env)
-                self.need(tk, "Z", e)
-                return "(filter (fun v_ => v_ %s %s) %s)" % (CMP[type(s.ops[0])], k, v), "L"
+            if tv == "L" and isinstance(s, (ast.Compare, ast.BinOp)):
+                return "(filter (fun v_ => %s) %s)" % (self.mask(s, ast.unparse(e.value), env), v), "L"
+            if tv == "L" and isinstance(s, ast.Slice) and s.step is None:
+                def neg(x):
+                    if isinstance(x, ast.UnaryOp) and isinstance(x.op, ast.USub):
+                        t_, ty_ = self.expr(x.operand, env)
+                        self.need(ty_, "Z", e)
+                        return t_
+                    raise Unsupported("only slices of the form a[:-k] / a[-k:] are supported")
+                if s.lower is None and s.upper is not None:
+                    return "(drop_last %s %s)" % (neg(s.upper), v), "L"
+                if s.upper is None and s.lower is not None:
+                    return "(take_last %s %s)" % (neg(s.lower), v), "L"
+                raise Unsupported("slice shape " + u)
+            if tv == "L" and isinstance(s, ast.Name):
+                i_, ti = self.expr(s, env)
+                if ti == "L":
+                    return "(take_idx %s %s)" % (v, i_), "L"
             raise Unsupported("subscript " + u)
         if isinstance(e, ast.Call):
             callee = ast.unparse(e.func)
@@ -158,6 +171,22 @@ class Tr:
             self.need(tb, "L", e)
             return "(%s, %s)" % (a, b), "P"
         raise Unsupported("expression " + ast.dump(e)[:120])
+
+    def mask(self, m, arr, env):
+        """Boolean mask over the array named `arr` as the body of `fun v_ => ...`."""
+        if isinstance(m, ast.BinOp) and isinstance(m.op, ast.BitAnd):
+            return "(%s && %s)" % (self.mask(m.left, arr, env), self.mask(m.right, arr, env))
+        if isinstance(m, ast.Compare) and len(m.ops) == 1 and type(m.ops[0]) in CMP:
+            l_, r_ = m.left, m.comparators[0]
+            if ast.unparse(l_) == arr:
+                k, tk = self.expr(r_, env)
+                self.need(tk, "Z", m)
+                return "(v_ %s %s)" % (CMP[type(m.ops[0])], k)
+            if ast.unparse(r_) == arr:
+                k, tk = self.expr(l_, env)
+                self.need(tk, "Z", m)
+                return "(%s %s v_)" % (k, CMP[type(m.ops[0])])
+        raise Unsupported("mask " + ast.unparse(m))
 
     def need(self, ty, want, e):
         if ty != want:
@@ -173,6 +202,8 @@ class Tr:
             neg = isinstance(test.ops[0], ast.IsNot)
             if ty == "Y":  # the series argument is always given in our model
                 return (then_k if neg else else_k)(env)
+            if ty == "ABSENT":  # an optional argument the translation is specialised to None
+                return (else_k if neg else then_k)(env)
             if ty == "V":
                 c = "(negb (pv_is_none %s))" % t if neg else "(pv_is_none %s)" % t
                 a, ta = then_k(env)
@@ -250,6 +281,17 @@ class Tr:
         if isinstance(s, ast.Expr) and isinstance(s.value, ast.Constant) \
                 and isinstance(s.value.value, str):
             return self.block(rest, env)
+        if isinstance(s, ast.Assign) and len(s.targets) == 1 \
+                and isinstance(s.targets[0], ast.Tuple) and isinstance(s.value, ast.Tuple) \
+                and len(s.targets[0].elts) == len(s.value.elts) \
+                and all(isinstance(x, ast.Name) for x in s.targets[0].elts):
+            # a, b = e1, e2  (right-hand sides must not mention the targets)
+            names = {x.id for x in s.targets[0].elts}
+            for v in s.value.elts:
+                if names & {n.id for n in ast.walk(v) if isinstance(n, ast.Name)}:
+                    raise Unsupported("tuple assignment with dependent right-hand side")
+            seq = [ast.Assign(targets=[t], value=v) for t, v in zip(s.targets[0].elts, s.value.elts)]
+            return self.block(seq + rest, env)
         if isinstance(s, ast.Assign) and len(s.targets) == 1 and isinstance(s.targets[0], ast.Name):
             v = s.targets[0].id
             t, ty = self.expr(s.value, env)
@@ -449,6 +491,7 @@ def translate_function(mod, cfg, calls):
     sig = " ".join("(%s : %s)" % (c, cfg.get("coqtypes", {}).get(c, COQTY.get(t, t)))
                    for c, t in seen)
     rty = {"Z": "Z", "B": "bool", "L": "list Z", "RZ": "res Z", "RL": "res (list Z)",
+           "P": "(list Z * list Z)", "RP": "res (list Z * list Z)",
            "V": "pyval", "RV": "res pyval", "ROL": "res (option (list Z))",
            "RU": "res unit", "LP": "list (list Z * list Z)",
            "RLP": "res (list (list Z * list Z))"}[tr.ret_type()]
